@@ -25,7 +25,10 @@
 //!   counter_value_exact_or_low16, value_carried, flags_carried_not_swapped, time_carried_exact,
 //!   common_time_header_exactly_when_needed, update_creates_event_as_configured, point_added_once,
 //!   read_accepted, reference_f32_rounding_self_check
-//! Known-finding cause predicates: D11 (NaN -> integer variation: 0, flags unchanged).
+//! Cause tags: `cause=D11` (NaN -> integer variation with a flag octet: 0, flags unchanged, OVER_RANGE
+//! missing).  D11 is repaired in the library (to_i16 / to_i32 test is_nan() first) and no longer a
+//! listed finding: the tag only names the pattern, a failure carrying it is a plain violation;
+//! regression case corpus/C10/convert_D11.ops.
 //! (Former finding D2 -- octet string at index 65535 in a start-stop header: master-side panic -- is
 //! repaired; a master-side panic is a plain violation, regression case corpus/C10/convert_D2.ops.)
 use crate::rng::Rng;
@@ -948,8 +951,8 @@ fn classify(impl_l: &str, exp: &Exp) -> Option<(&'static str, String)> {
                 return Some((m, format!("want `{line}` got `{impl_l}`")));
             }
             if iw[6] != ew[6] {
-                // cause predicate of known finding D11: a NaN put into an integer variation that has
-                // a flag octet arrives as 0 with exactly the recorded flags (OVER_RANGE not added)
+                // cause tag of FORMER finding D11 (repaired; a hit is a violation): a NaN put into an integer
+                // variation that has a flag octet arrives as 0 with exactly the recorded flags (OVER_RANGE not added)
                 let d11 = *nan_int && *hf && rec_flags & OVER_RANGE == 0
                     && iw[6].parse::<u8>().ok() == Some(*rec_flags)
                     && iw[5] == "0000000000000000" && iw[7] == ew[7];
